@@ -155,17 +155,35 @@ fn expand_struct_assertion(value_expr: &TokenStream, pattern: &PatternStruct) ->
         .filter_map(|f| {
             let field_name = f.operations.root_field_name();
             if unique_field_names.insert(field_name.clone()) {
-                Some(field_name)
+                Some((field_name, f.operations.root_field_span()))
             } else {
                 None
             }
         })
         .collect();
 
+    // In the destructuring pattern a tuple index is given the span of the field access it
+    // was written as, so that a type error on it points into the pattern (a bare
+    // `syn::Index` has the call-site span).
+    let field_keys: Vec<TokenStream> = field_names
+        .iter()
+        .map(|(name, span)| match name {
+            crate::pattern::FieldName::Index(index) => {
+                let mut idx = syn::Index::from(*index);
+                idx.span = *span;
+                quote! { #idx }
+            }
+            crate::pattern::FieldName::Ident(_) => quote! { #name },
+        })
+        .collect();
+
     // Bind fields under reserved names, not under their own names, so that the
     // bindings cannot capture identifiers in the caller's expressions
     // (`User { name: == name, .. }` must compare with the caller's `name`).
-    let field_bindings: Vec<_> = field_names.iter().map(hygienic_field_binding).collect();
+    let field_bindings: Vec<_> = field_names
+        .iter()
+        .map(|(name, _)| hygienic_field_binding(name))
+        .collect();
 
     let rest_pattern = if !rest {
         quote! {}
@@ -205,7 +223,7 @@ fn expand_struct_assertion(value_expr: &TokenStream, pattern: &PatternStruct) ->
     quote_spanned! {span=>
         #[allow(unreachable_patterns)]
         match &#value_expr {
-            #struct_path { #(#field_names: #field_bindings),* #rest_pattern } => {
+            #struct_path { #(#field_keys: #field_bindings),* #rest_pattern } => {
                 #(#field_assertions)*
             },
             _ => {
